@@ -93,7 +93,19 @@ Bytes = _Simple("Bytes", StrS)
 Slice = _Simple("Slice", SliceDT)
 Dyn = _Simple("Dyn", Val)
 NoneT = _Simple("NoneT", None)
-OpaqueT = _Simple("Opaque", IntS)
+class OpaqueOf(Sort):
+    """opaque library value; a non-empty tag selects tag-specific contracts `opaque:<tag>.<method>`"""
+
+    def __init__(self, tag=""):
+        self.tag = tag
+        self.z = IntS
+        self.name = "Opaque"
+
+    def __repr__(self):
+        return "Opaque" + (":" + self.tag if self.tag else "")
+
+
+OpaqueT = OpaqueOf("")
 
 
 class SeqOf(Sort):
@@ -457,8 +469,8 @@ def unbox(t, sort):
         return VSlice(Val.sl(t))
     if isinstance(sort, Obj):
         return VObj(Val.ref(t), sort.cls)
-    if sort is OpaqueT:
-        return VOpaque(Val.ok(t))
+    if isinstance(sort, OpaqueOf):
+        return VOpaque(Val.ok(t), sort.tag)
     if isinstance(sort, Enum):
         return VEnum(sort.name, Val.em(t))
     if isinstance(sort, SeqOf):
@@ -495,7 +507,7 @@ def is_sort_cond(t, sort):
         return Val.is_VSliceV(t)
     if sort is NoneT:
         return Val.is_VNone(t)
-    if sort is OpaqueT:
+    if isinstance(sort, OpaqueOf):
         return Val.is_VOpaque(t)
     if isinstance(sort, Obj):
         return z3.And(Val.is_VObj(t), Val.cls(t) == CLASSES.id(sort.cls))
@@ -540,7 +552,7 @@ def elem_to_term(v, elem):
         return v.t
     if isinstance(elem, Enum) and isinstance(v, VEnum):
         return v.t
-    if elem is OpaqueT and isinstance(v, VOpaque):
+    if isinstance(elem, OpaqueOf) and isinstance(v, VOpaque):
         return v.t
     raise TypeError("elem_to_term %r as %r" % (v, elem))
 
@@ -569,8 +581,8 @@ def term_to_elem(t, elem):
         return VDyn(t)
     if isinstance(elem, SeqOf):
         return VSeq(t, elem.elem)
-    if elem is OpaqueT:
-        return VOpaque(t)
+    if isinstance(elem, OpaqueOf):
+        return VOpaque(t, elem.tag)
     raise TypeError("term_to_elem %r" % (elem,))
 
 
@@ -645,8 +657,8 @@ def make_symbolic(name, sort, assumptions):
         return NONE
     if sort is Dyn:
         return VDyn(fresh(name, Val))
-    if sort is OpaqueT:
-        return VOpaque(fresh(name, IntS), name)
+    if isinstance(sort, OpaqueOf):
+        return VOpaque(fresh(name, IntS), sort.tag or name)
     if isinstance(sort, Opt):
         t = fresh(name, Val)
         assumptions.append(is_sort_cond(t, sort))
@@ -769,3 +781,15 @@ def forall(vs, body):
     except z3.Z3Exception:
         pass
     return z3.ForAll(vs, body)
+
+
+def subst_sv(v, pairs):
+    """apply a z3 substitution to the term(s) of a symbolic value"""
+    if isinstance(v, VTuple):
+        return VTuple([subst_sv(x, pairs) for x in v.items], v.kind)
+    if hasattr(v, "t") and isinstance(getattr(v, "t"), z3.ExprRef):
+        import copy
+        w = copy.copy(v)
+        w.t = z3.substitute(v.t, *pairs)
+        return w
+    return v
